@@ -26,7 +26,6 @@ IOut == IRewrite(P, Q, S, RootTy)
 Fails == Judge(P, Q, S, IOut, RootTy, <<>>)
 
 KnownFail(f) ==
-  \/ (f.c = "missed" /\ GreedyMiss(P, SubtermAt(S, f.at)))
   \/ (f.c = "missed" /\ BareNestedBlock(P, S, f.at))
 
 \* I => P: whatever the engine-shaped machine produces is allowed by the
